@@ -82,6 +82,8 @@ class FakeExecutor(Executor):
         self.shut = False
 
     def submit(self, fn, *args, **kw):
+        if self.shut:
+            raise RuntimeError('cannot schedule new futures after shutdown')     # as concurrent.futures does
         f = FakeFuture(fn, args)
         self.submitted.append(f)
         return f
@@ -94,9 +96,11 @@ def _run(perm, fail, mode, own, max_workers):
     """Returns (outcome, detail): outcome in 'ok' | 'raised' | 'bad:<why>'."""
     log = {'made': []}
 
+    failing = [fail]
+
     def tagger(kspec, file, **kw):
         i = FILES.index(file)
-        if i == fail:
+        if i == failing[0]:
             raise Boom(i)
         return TAGS[i]
 
@@ -119,9 +123,19 @@ def _run(perm, fail, mode, own, max_workers):
         try:
             res = calc.calc_file_signatures(KSPEC, FILES, progress=None, concurrency=conc, max_workers=max_workers, executor=caller_exec)
         except Boom:
-            if 0 <= fail < N:
-                return 'raised', None
-            return 'bad:spurious failure', None
+            if not (0 <= fail < N):
+                return 'bad:spurious failure', None
+            if not own:
+                # the caller's executor is the caller's: the same executor is used for the next batch, in which every file
+                # is readable, and that call must return the signatures in file order
+                failing[0] = -1
+                try:
+                    res2 = calc.calc_file_signatures(KSPEC, FILES, progress=None, concurrency=conc, max_workers=max_workers, executor=caller_exec)
+                except Exception as e:   # noqa
+                    return f'bad:after a failed batch the next call with the same caller-supplied executor raised {type(e).__name__}: {e}', None
+                if len(res2) != N or any(res2[i] is not TAGS[i] for i in range(N)):
+                    return 'bad:after a failed batch the next call with the same caller-supplied executor returned wrong signatures', None
+            return 'raised', None
         except ValueError:
             if mode == 3 and own:
                 return 'valueerror', None
